@@ -4,7 +4,7 @@ cd /verif
 cp -r evidence /verif/.cache/evidence_backup2 2>/dev/null
 for d in seeded/*/; do
   id=$(basename $d); prop=$(python3 -c "import json;print(json.load(open('$d/meta.json'))['property'])")
-  git -C /repo apply $d/patch.diff || { echo "$id: patch does not apply"; continue; }
+  git -C /repo apply /verif/$d/patch.diff || { echo "$id: patch does not apply"; continue; }
   out=$(./qv check $prop 2>&1); rc=$?
   git -C /repo checkout -- .
   if [ $rc -eq 0 ]; then echo "MISSED $id ($prop)"; else echo "caught $id ($prop): $(echo "$out" | grep -c '^VIOLATION') violation lines, $(echo "$out" | grep -c 'no-failing-input-found') without input"; fi
